@@ -11,6 +11,8 @@
 #include <errno.h>
 #include <unistd.h>
 #include <sys/mman.h>
+#include <stdlib.h>
+#include <execinfo.h>
 
 int   __real_pthread_create(pthread_t*, const pthread_attr_t*, void*(*)(void*), void*);
 int   __real_pthread_join(pthread_t, void**);
@@ -105,7 +107,7 @@ static void switch_to(int next, int site) {
   if (site < 100 || site == SITE_MALLOC || site == SITE_FREE || site == SITE_GETSPECIFIC) sched_lib_switches++;
   if (site >= 0 && site < 16) sched_hook_switches[site]++;
   g_cur = next;
-  ev("sw %d>%d @%d", me, next, site);
+  if (sim_verbose) ev("sw %d>%d @%d #%u", me, next, site, g_ord); else ev("sw %d>%d @%d", me, next, site);
   sem_post(&T[next].sem);
   while (sem_wait(&T[me].sem) < 0 && errno == EINTR) {}
 }
@@ -117,10 +119,15 @@ static void block_and_switch(int site) {
   switch_to(next, site);
 }
 
+static long g_ytr_lo = -1, g_ytr_hi = -1, g_bt_ord = -1;
+void* sim_last_addr;
 void sim_yield(int site) {
   if (!g_active || g_alive < 2 || !tls_registered) return;
+  if (g_cur != tls_self) { char b[96]; int n = snprintf(b, sizeof b, "cellosim: thread %d yields at site %d while thread %d holds the baton\n", tls_self, site, g_cur); (void)!write(2, b, (size_t)n); _exit(2); }
   g_yields++;
   uint32_t ord = g_ord++;
+  if ((long)ord == g_bt_ord) { void* bt[16]; int n = backtrace(bt, 16); backtrace_symbols_fd(bt, n, 2); }
+  if (g_ytr_lo >= 0 && (long)ord >= g_ytr_lo && (long)ord <= g_ytr_hi) { char b[96]; int n = snprintf(b, sizeof b, "Y %u t%d site=%d addr=%p\n", ord, tls_self, site, sim_last_addr); (void)!write(2, b, (size_t)n); }
   int me = tls_self;
   int want = -2;
   while (g_sched_pos < g_plan->nsched && g_plan->sched[g_sched_pos].ord < ord) g_sched_pos++;
@@ -147,7 +154,15 @@ void sim_pause(void) {
   }
 }
 
-static void hook_yield(int site) { sim_yield(site); }
+/* sites 20/21 bracket the collector's conservative stack scan: what it reads there (and how often) depends on stale stack
+ * words such as setjmp-mangled pointers and stack-protector canaries, which are random per process, so the memory-access
+ * scheduler must not count those reads */
+__thread int sim_in_stack_scan;
+static void hook_yield(int site) {
+  if (site == 20) { sim_in_stack_scan++; return; }
+  if (site == 21) { sim_in_stack_scan--; return; }
+  sim_yield(site);
+}
 
 void sched_init(const Plan* p) {
   g_plan = p;
@@ -155,6 +170,8 @@ void sched_init(const Plan* p) {
   g_chaos_den = (int)plan_env(p, "sched.chaos_den", 4);
   if (g_chaos_den < 1) g_chaos_den = 1;
   rng_seed(&g_rng, p->seed, p->run, STREAM_SCHED);
+  if (getenv("SIM_BTORD")) g_bt_ord = atol(getenv("SIM_BTORD"));
+  if (getenv("SIM_YTRACE")) sscanf(getenv("SIM_YTRACE"), "%ld:%ld", &g_ytr_lo, &g_ytr_hi);
   memset(T, 0, sizeof T);
   T[0].state = T_RUNNABLE; T[0].th = pthread_self();
   sem_init(&T[0].sem, 0, 0);
